@@ -39,6 +39,8 @@ def main():
             n = req["n"]
             if fam == "wide":
                 n = max(20, n // 2)
+            if fam == "wider":
+                n = max(20, n // 4)
             if fam == "diamond":
                 n = max(20, n // 10)
             if fam == "tiny" and req.get("tier") == "thorough":
